@@ -10,7 +10,7 @@
 (***************************************************************************)
 EXTENDS ICA, Json, SequencesExt
 
-CONSTANTS OutFile, NKinds, MaxLen, NChunks, ENUM_ALLOWS, DupEvery
+CONSTANTS OutDir, NKinds, MaxLen, NChunks, ENUM_ALLOWS, DupEvery, Rot
 
 M(k, f) == [k |-> k, from |-> f]
 KindSeq == << M("send", "self"), M("send", "other"), M("send", "peer"), M("delegate", "self"), M("setwd", "self"), M("fail", "self"),
@@ -30,29 +30,41 @@ Prefix(al) ==
 RECURSIVE RunAll(_, _, _)
 RunAll(S0, acts, i) == IF i > Len(acts) THEN S0 ELSE RunAll(Step(S0, acts[i]).S, acts, i + 1)
 
-RECURSIVE Build(_, _, _, _)
-Build(S0, acts, cases, i) ==
-    IF i > Len(cases) THEN acts
-    ELSE LET o    == IF i % 2 = 1 THEN "O1" ELSE "O2"
-             send == [a |-> "SendTx", signer |-> o, owner |-> o, msgs |-> cases[i], to |-> "long"]
-             recv == [a |-> "Recv", ca |-> S0.A.active[o], seq |-> ActiveA(S0, o).ns]
-             S1   == Step(Step(S0, send).S, recv).S
-             dup  == IF i % DupEvery = 0 THEN <<recv>> ELSE <<>>
-         IN Build(S1, acts \o <<send, recv>> \o dup, cases, i + 1)
+\* (the sequence of all lists is bound once through a set binder: TLC would otherwise rebuild it on every reference)
+Chunk(k) == CHOOSE r \in { SelectSeq([j \in 1..Len(ls) |-> IF j % NChunks = k THEN ls[j] ELSE <<>>], LAMBDA x : x # <<>>) : ls \in {ListSeq} } : TRUE
 
-Chunk(k) == SelectSeq([i \in 1..Len(ListSeq) |-> IF i % NChunks = k THEN ListSeq[i] ELSE <<>>], LAMBDA x : x # <<>>)
+\* canonical schedule of the recorded C38 findings (known_findings.json classes inflight-ack, host-confirm-overwrite):
+\* two channels of one owner are initialised (the second by a stranger, with another ordering and encoding) before either
+\* is open; the first opens and is closed by a timeout; then the second is acknowledged and confirmed.
+Probe ==
+    [kind |-> "ICA", cfg |-> "probe", acts |->
+      << [a |-> "Register", signer |-> "O1", owner |-> "O1", order |-> "ORDERED", enc |-> "proto3"],
+         [a |-> "OpenInit", signer |-> "X", owner |-> "O1", order |-> "UNORDERED", enc |-> "proto3json", cpport |-> "icahost"],
+         [a |-> "Try", ca |-> 0], [a |-> "Try", ca |-> 1], [a |-> "Ack", ca |-> 0, cb |-> 0], [a |-> "Confirm", cb |-> 0],
+         [a |-> "SendTx", signer |-> "O1", owner |-> "O1", msgs |-> <<M("send", "self")>>, to |-> "short"],
+         [a |-> "Wait"], [a |-> "Timeout", ca |-> 0, seq |-> 1],
+         [a |-> "Ack", ca |-> 1, cb |-> 1], [a |-> "Confirm", cb |-> 1], [a |-> "CloseConfirm", cb |-> 0] >>]
 
-Schedule(al, k) ==
-    [kind |-> "ICA", cfg |-> "exec-" \o al, acts |-> Build(RunAll(InitState, Prefix(al), 1), Prefix(al), Chunk(k), 1)]
+\* The enumeration is unrolled by TLC's own next-state relation (one case per step, one behaviour per allow list and chunk).
+VARIABLES S, acts, i, al, k, cases
 
-AllowSeq == SetToSeq(ENUM_ALLOWS)
-Schedules == [ j \in 1..(Len(AllowSeq) * NChunks) |-> Schedule(AllowSeq[((j - 1) \div NChunks) + 1], (j - 1) % NChunks) ]
+Init == /\ al \in ENUM_ALLOWS /\ k \in 0..(NChunks - 1)
+        /\ S = RunAll(InitState, Prefix(al), 1) /\ acts = Prefix(al) /\ i = 1 /\ cases = Chunk(k)
 
-ASSUME JsonSerialize(OutFile, Schedules)
-ASSUME PrintT(<<"ENUMERATED", Cardinality(Lists), Len(Schedules)>>)
+Next ==
+    /\ i <= Len(cases)
+    /\ LET o    == IF (i + Rot) % 2 = 1 THEN "O1" ELSE "O2"
+           send == [a |-> "SendTx", signer |-> o, owner |-> o, msgs |-> cases[i], to |-> "long"]
+           recv == [a |-> "Recv", ca |-> S.A.active[o], seq |-> ActiveA(S, o).ns]
+           dup  == IF i % DupEvery = 0 THEN <<recv>> ELSE <<>>
+       IN /\ S' = Step(Step(S, send).S, recv).S
+          /\ acts' = acts \o <<send, recv>> \o dup
+    /\ i' = i + 1
+    /\ UNCHANGED <<al, k, cases>>
+    /\ (i' > Len(cases) => JsonSerialize(OutDir \o "/exec_" \o al \o "_" \o ToString(k) \o ".json", [kind |-> "ICA", cfg |-> "exec-" \o al, acts |-> acts']))
 
-VARIABLE x
-Init == x = 0
-Next == UNCHANGED x
-Spec == Init /\ [][Next]_x
+Spec == Init /\ [][Next]_<<S, acts, i, al, k, cases>>
+
+ASSUME JsonSerialize(OutDir \o "/probe.json", Probe)
+ASSUME PrintT(<<"ENUMERATED", Cardinality(Lists)>>)
 =============================================================================
